@@ -23,8 +23,13 @@
 (*     i*(N-L)|) instead of D.                                             *)
 (*   [t |-> "hbin", ...]       the same for records longer than 2^18       *)
 (*                             samples, without the Q12 frequency fields   *)
-(*   [t |-> "built", ok, same] SpectrumAnalyzer(...).plan() succeeded; its *)
-(*                             plan equals the scheduler's (f, r, L, K, D) *)
+(*   [t |-> "built", ok, same, eqltf]  SpectrumAnalyzer(...).plan()        *)
+(*                             succeeded; its plan equals the scheduler's  *)
+(*                             (f, r, L, K, D); eqltf: an lpsd plan equals *)
+(*                             ltf_plan(bmin = 1, Lmin = 1) (1 otherwise)  *)
+(* A trace may be recorded after an earlier call in the same process that  *)
+(* differed in one parameter (meta.pre): the clauses are the same - plans  *)
+(* are functions of the configuration alone.                               *)
 (*   [t |-> "count", a, b]     bin counts of the vectorised / iterative    *)
 (*                             schedulers for one configuration            *)
 (* Every clause is named "Cxx:..." after the property it belongs to.       *)
@@ -131,6 +136,7 @@ Built ==
     /\ Check("C02:plan_built_through_analyzer", Ev.ok = 1)
     /\ Check("C02:at_least_one_bin", NumBins >= 1)
     \* the analyzer only forwards the configuration: same frequencies (C03), same lengths and counts (C04), same starts (C02)
+    /\ Check("C03:lpsd_is_ltf_with_bmin_1_and_Lmin_1", Ev.eqltf = 1)
     /\ Check("C02:analyzer_plan_is_the_scheduler_plan", Ev.ok = 0 \/ Ev.same = 1)
     /\ Check("C03:analyzer_plan_is_the_scheduler_plan", Ev.ok = 0 \/ Ev.same = 1)
     /\ Check("C04:analyzer_plan_is_the_scheduler_plan", Ev.ok = 0 \/ Ev.same = 1)
